@@ -30,8 +30,9 @@
 (*              late store(true) after the call is gone        (finding F7) *)
 (*   FixClear   the worker clears `retrigger` when it picks up a request    *)
 (*                                                              (finding F8) *)
-(*   FixSave    did_save queues its (version-less) request only when no      *)
-(*              compilation is running or queued; otherwise it just waits    *)
+(*   FixSave    did_save's (version-less) request never cancels a running    *)
+(*              compilation and never replaces a queued request: in either   *)
+(*              case did_save sends nothing and just waits                   *)
 (*              (finding "cached-save-supersedes-change")                    *)
 (***************************************************************************)
 EXTENDS Integers, Sequences, FiniteSets, TLC
@@ -195,8 +196,7 @@ WCheck ==
                                 text |-> IF Cached(wmsg) THEN ctext ELSE wtext]
                     /\ committed' = TRUE
                     /\ ctext' = IF Cached(wmsg) THEN ctext ELSE wtext
-                    /\ mech' = IF Cached(wmsg) /\ ctext # wtext
-                               THEN mech \cup {"cached-save-supersedes-change"} ELSE mech
+                    /\ UNCHANGED mech
     /\ UNCHANGED <<isCompiling, retrigger, chan, epoch, wmsg, wtext, snap, token, gdoc, rtSeq>>
 
 \* W.clearCompiling: is_compiling.store(false)
@@ -246,46 +246,45 @@ Arrive(h) ==
     /\ pc[h] = "arrive" /\ token = Free
     /\ h # "O" => pc["O"] # "arrive"
     /\ h \in ChangeIds => VersionOf(h) = docVersion + 1
-    /\ pc' = [pc EXCEPT ![h] = IF h \in SaveIds /\ FixSave THEN "S.busy"
-                               ELSE IF h \in Senders THEN "H.load" ELSE WaitEntry]
+    /\ pc' = [pc EXCEPT ![h] = IF h \in Senders THEN "H.load" ELSE WaitEntry]
     /\ token' = h
     /\ docVersion' = IF h \in ChangeIds THEN VersionOf(h) ELSE docVersion
     /\ seqOf' = IF h \in Senders THEN [seqOf EXCEPT ![h] = nextSeq] ELSE seqOf
     /\ nextSeq' = IF h \in Senders THEN nextSeq + 1 ELSE nextSeq
     /\ UNCHANGED <<shared, wloc, snap, rtSeq, done, gcache, mech>>
 
-\* ---- did_save (repair): a save does not change the text, so a running or queued compilation
-\* already covers it; a version-less request on top of it would cancel / replace the request of
-\* the last edit and then be answered from a cache that predates that edit.
-\* S.busy: `state.is_compiling.load()`
-SBusy(h) ==
-    /\ HStep(h, "S.busy", IF isCompiling THEN WaitEntry ELSE "S.pending")
-    /\ UNCHANGED <<shared, wloc, snap, ghost>>
-\* S.pending: `!state.cb_rx.is_empty()`
-SPending(h) ==
-    /\ HStep(h, "S.pending", IF chan # <<>> THEN WaitEntry ELSE "H.load")
-    /\ UNCHANGED <<shared, wloc, snap, ghost>>
-
 \* ---- send_new_compilation_request
+\* (repair FixSave) A save does not change the text, so a running or queued compilation already
+\* covers it; a version-less request that cancelled / replaced the request of the last edit
+\* would then be answered from a cache that predates that edit.
+Yields(h) == FixSave /\ h \in SaveIds          \* h backs off instead of superseding
+SaveSupersedes == "cached-save-supersedes-change"
+\* the worker has a request in hand whose compilation has not ended yet
+Running == pc["W"] \in {"W.recv", "W.pickupClear", "W.setCompiling", "W.check"}
 \* H.load: `if state.is_compiling.load()`
 HLoad(h) ==
-    /\ HStep(h, "H.load", IF isCompiling THEN "H.setRetrigger" ELSE "H.isFull")
+    /\ HStep(h, "H.load", IF ~isCompiling THEN "H.isFull"
+                          ELSE IF Yields(h) THEN WaitEntry ELSE "H.setRetrigger")
     /\ UNCHANGED <<shared, wloc, snap, ghost>>
 
 \* H.setRetrigger: retrigger_compilation.store(true)
 HSetRetrigger(h) ==
     /\ HStep(h, "H.setRetrigger", "H.isFull") /\ retrigger' = TRUE /\ rtSeq' = seqOf[h]
-    /\ UNCHANGED <<isCompiling, chan, lastState, epoch, wloc, snap, gdoc, done, gcache, mech>>
+    /\ mech' = IF h \in SaveIds /\ Running /\ wmsg.kind = "change" THEN mech \cup {SaveSupersedes} ELSE mech
+    /\ UNCHANGED <<isCompiling, chan, lastState, epoch, wloc, snap, gdoc, done, gcache>>
 
 \* H.isFull: `if state.cb_tx.is_full()`
 HIsFull(h) ==
-    /\ HStep(h, "H.isFull", IF Len(chan) = 1 THEN "H.drain" ELSE AfterDrain)
+    /\ HStep(h, "H.isFull", IF Len(chan) < 1 THEN AfterDrain
+                            ELSE IF Yields(h) THEN WaitEntry ELSE "H.drain")
     /\ UNCHANGED <<shared, wloc, snap, ghost>>
 
 \* H.drain: `while let Ok(CompilationContext(_)) = cb_rx.try_recv() {}`
 HDrain(h) ==
     /\ HStep(h, "H.drain", AfterDrain) /\ chan' = <<>>
-    /\ UNCHANGED <<isCompiling, retrigger, lastState, epoch, wloc, snap, ghost>>
+    /\ mech' = IF h \in SaveIds /\ chan # <<>> /\ Head(chan).kind = "change"
+               THEN mech \cup {SaveSupersedes} ELSE mech
+    /\ UNCHANGED <<isCompiling, retrigger, lastState, epoch, wloc, snap, gdoc, rtSeq, done, gcache>>
 
 \* H.setCompiling (repair F7): is_compiling.store(true) -- a compilation is pending or running
 HSetCompiling(h) ==
@@ -348,8 +347,7 @@ TWoke(h) ==
     /\ pc' = [pc EXCEPT ![h] = WaitEntry] /\ token' = h
     /\ UNCHANGED <<shared, wloc, snap, ghost>>
 
-SenderStep(h) == \/ (h \in SaveIds /\ (SBusy(h) \/ SPending(h)))
-                 \/ HLoad(h) \/ HSetRetrigger(h) \/ HIsFull(h) \/ HDrain(h)
+SenderStep(h) == \/ HLoad(h) \/ HSetRetrigger(h) \/ HIsFull(h) \/ HDrain(h)
                  \/ HSetCompiling(h) \/ HSend(h) \/ (h = "O" /\ HOpenSet)
 WaitStep(h)   == \/ TCheck(h) \/ TCheckEmpty(h) \/ TReturn(h) \/ TCreate(h) \/ TAwait(h) \/ TWoke(h)
 HandlerStep(h) == Arrive(h) \/ (h \in Senders /\ SenderStep(h)) \/ WaitStep(h)
@@ -399,13 +397,13 @@ NoLostEdit == Idle /\ done.result # "none" => done.result = "ok" /\ done.text = 
 \* classification of a violation by the state it is observed in
 HangMechanism == IF isCompiling THEN "late-open-store" ELSE "lost-wakeup"
 LostEditMechanism == IF done.result = "aborted-stale" THEN "stale-retrigger"
-                     ELSE IF done.result = "ok" /\ done.cached THEN "cached-save-supersedes-change"
+                     ELSE IF done.result = "ok" /\ done.cached THEN SaveSupersedes
                      ELSE "other"
 \* ... and the classification is backed by the defect event having happened in the behaviour
 ClassificationSound ==
     /\ (Idle /\ \E h \in Handlers : TrulyParked(h)) => HangMechanism \in mech
     /\ (Idle /\ done.result # "none" /\ ~(done.result = "ok" /\ done.text = docVersion))
-           => LostEditMechanism \in mech
+           => mech # {} /\ (LostEditMechanism = "stale-retrigger" => "stale-retrigger" \in mech)
 \* the properties, up to the mechanisms listed as known findings (KnownMechs = {}: strict)
 Hang     == Idle /\ \E h \in Handlers : TrulyParked(h)
 LostEdit == Idle /\ done.result # "none" /\ ~(done.result = "ok" /\ done.text = docVersion)
